@@ -76,6 +76,23 @@ def oracle_run(args):
         orig(self, hop_targets, electronics)
         records.append(float(np.max(np.abs(self.rho - before))))
     TrajectorySH.hop_to_it = wrapped
+    from mudslide.afssh import AugmentedFSSH
+    orig_sh = AugmentedFSSH.surface_hopping
+    collapse_problems, collapse_info = [], {"with_hop": 0}
+
+    def wrapped_sh(self, last_electronics, this_electronics):
+        n0 = len(self.tracer.events.get("collapse", [])) if hasattr(self.tracer, "events") else 0
+        state0 = self.state
+        orig_sh(self, last_electronics, this_electronics)
+        n1 = len(self.tracer.events.get("collapse", [])) if hasattr(self.tracer, "events") else 0
+        if n1 > n0:
+            want = np.zeros_like(self.rho)
+            want[self.state, self.state] = 1.0
+            collapse_info["with_hop"] += int(self.state != state0)
+            if not np.array_equal(self.rho, want):
+                collapse_problems.append("t=%r: after the collapse rho is not the pure ACTIVE state %d (state before the step's hop "
+                                         "attempt: %d); populations %r" % (self.time, self.state, state0, np.real(np.diag(self.rho)).tolist()))
+    AugmentedFSSH.surface_hopping = wrapped_sh
     try:
         cls = getattr(mudslide, spec["cls"])
         t = cls(model, x0, p0, rho0, state0=0, dt=spec["dt"], max_steps=spec["steps"], seed_sequence=spec["seed"],
@@ -83,7 +100,8 @@ def oracle_run(args):
         tr = t.simulate()
     finally:
         TrajectorySH.hop_to_it = orig
-    problems = []
+        AugmentedFSSH.surface_hopping = orig_sh
+    problems = list(collapse_problems[:2])
     pure = spec["rho"] in ("pure", "basis")
     # linear-rk4: positivity/purity hold only up to the accumulated RK4 truncation error (no exact statement exists):
     # gross violations only; Hermiticity and trace are exact and judged strictly below
@@ -101,12 +119,8 @@ def oracle_run(args):
             break
     if records and max(records) != 0.0:
         problems.append("a hop attempt changed the density matrix by %.3g" % max(records))
-    if spec["cls"] == "AugmentedFSSH" and collapsed:
-        snaps = list(tr)
-        for s in snaps:
-            if (s["time"] - spec["dt"]) in collapsed or s["time"] in collapsed:
-                pass
-    return not problems, {"snapshots": len(tr), "hop_attempts": len(records), "collapses": len(collapsed), "problems": problems[:2]}, \
+    return not problems, {"snapshots": len(tr), "hop_attempts": len(records), "collapses": len(collapsed),
+                          "collapses_in_hop_steps": collapse_info["with_hop"], "problems": problems[:2]}, \
         {"problems": []}, "; ".join(problems[:2]) or "ok"
 
 
@@ -123,13 +137,18 @@ def oracle_collapse(args):
     t.delP += rng.normal(size=t.delP.shape)
     t.gamma_collapse = lambda electronics=None: np.array([2.0, 2.0])       # force the collapse branch
     t.hopper = lambda g: []
+    if args.get("hop"):
+        # hop attempt and collapse in the same call: the collapse projects onto the state active AFTER the attempt
+        t.hopper = lambda g: [{"target": 1 - int(args["state"]), "weight": 1.0, "zeta": 0.1, "prob": 0.5}]
+        t.rho = np.zeros((2, 2), dtype=complex)
+        t.rho[int(args["state"]), int(args["state"])] = 1.0
     e0, e1 = ec.elecs(c)
     e1._fm = np.zeros((2, 2, c["n"]))
     t.surface_hopping(e0, e1)
     want = np.zeros((2, 2), dtype=complex)
     want[t.state, t.state] = 1.0
     ok = np.array_equal(t.rho, want) and not np.any(t.delR) and not np.any(t.delP) and len(t.tracer.events.get("collapse", [])) == 1
-    return ok, {"rho": t.rho, "events": len(t.tracer.events.get("collapse", []))}, {"rho": want}, \
+    return ok, {"rho": t.rho, "events": len(t.tracer.events.get("collapse", [])), "hopped": int(t.state != int(args["state"]))}, {"rho": want}, \
         "after a collapse rho is not the pure active state / moments not zero / event not recorded"
 
 
@@ -217,10 +236,11 @@ def run(ctx):
         if not ok:
             ctx.oracle_fail("adiabatic-model-coupling-diagonal" if "Hermiticity" in text else "invalid-state-in-run:shin-metiu",
                             "run", spec, obs, req, text)
-    for i in range(ctx.budget(10, 200)):
-        a = {"seed": int(rng.integers(1, 10 ** 6)), "n": int(rng.integers(1, 4)), "state": i % 2}
+    for i in range(ctx.budget(24, 400)):
+        a = {"seed": int(rng.integers(1, 10 ** 6)), "n": int(rng.integers(1, 4)), "state": i % 2, "hop": i >= 8}
         ok, obs, req, text = oracle_collapse(a)
-        ctx.case(("collapse", a["n"], a["state"]))
+        ctx.case(("collapse", a["n"], a["state"], a["hop"], int(obs["hopped"])))
         ctx.count("collapse")
+        ctx.count("collapse_in_the_step_of_an_accepted_hop", int(obs["hopped"]))
         if not ok:
             ctx.oracle_fail("collapse", "collapse", a, obs, req, text)
